@@ -182,3 +182,17 @@ def build(reg, src):
         return rows
     setitem_clears_caches.__name__ = 'setitem-clears-caches'
     reg.extra_checks.append(setitem_clears_caches)
+
+    # evaluation leaves the scope stack as it found it - also when the body of a called function raises: otherwise the NEXT evaluation
+    # depends on the history (dead locals stay visible).  C03's contract of _eval_fn, re-verified here
+    def frames_popped_on_every_exit(ctx):
+        from pyvc.subverify import subverify
+        from contracts import c03
+        import replay.c03 as rp3
+        KI_ = 'klongpy/interpreter.py::KlongInterpreter.'
+        rows, _ = subverify(src, 'C04', c03, [KI_ + '_eval_fn'], replay=rp3.replay_application,
+                            why='the scope pushed for a call is popped on the normal and on the exceptional exit')
+        ctx['eng'].verified[KI_ + '_eval_fn (scope stack restored)'] = dict(sha=src.sha(src.find(KI_ + '_eval_fn')), backend='z3 (contract of contracts/c03.py)')
+        return rows
+    frames_popped_on_every_exit.__name__ = 'frames-popped-on-every-exit'
+    reg.extra_checks.append(frames_popped_on_every_exit)
